@@ -80,9 +80,14 @@ Definition snap (s : st) : word :=
    [3; k]          transportReader's updateWindow(k) after k bytes were read  obs [stream WU] ++ snapshot
    [4; n]          bdpEstimator -> updateFlowControl(n)              obs [conn WU; number of conn WU items; SETTINGS value] ++ snapshot
    [5]             BDP ping: trInFlow.reset()                        obs [conn WU] ++ snapshot
+   [6]             a NewStream call starts and blocks on the stream quota (MAX_CONCURRENT_STREAMS
+                   reached): the stream object exists, its HEADERS are not queued yet    obs [0] ++ snapshot
+   [7]             quota becomes available: the HEADERS of a new stream are queued (NewStream returns;
+                   started here if [6] did not); later operations address the new stream   obs [1] ++ snapshot
    an op [1; size; pad] with pad > size or size >= 2^24 is not a frame and is skipped:
    obs [-1] ++ snapshot *)
-Inductive opk := OData (size pad : Z) | OReq (n : Z) | ORead (k : Z) | ONew (n : Z) | OPing.
+Inductive opk := OData (size pad : Z) | OReq (n : Z) | ORead (k : Z) | ONew (n : Z) | OPing
+               | OBegin | ORelease.
 
 Definition decode_op (op : word) : option opk :=
   match op with
@@ -91,6 +96,8 @@ Definition decode_op (op : word) : option opk :=
   | [3; k] => Some (ORead k)
   | [4; n] => Some (ONew n)
   | [5] => Some OPing
+  | [6] => Some OBegin
+  | [7] => Some ORelease
   | _ => None
   end.
 
@@ -123,6 +130,11 @@ Definition stepk (s : st) (k : opk) : word * st :=
     ([cwu; (if cwu >? 0 then 1 else 0); (if grow then n else 0)] ++ snap s2, s2)
   | OPing =>
     let (cwu, s1) := tr_reset s in ([cwu] ++ snap s1, s1)
+  | OBegin => ([0] ++ snap s, s)
+  | ORelease =>
+    (* checkForStreamQuota, atomically with queueing the HEADERS: s.fc = inFlow{limit: t.initialWindowSize};
+       the operations that follow address this stream *)
+    let s1 := mkst (iws s) 0 0 0 (climit s) (unacked s) false (iws s) in ([1] ++ snap s1, s1)
   end.
 
 Definition step (s : st) (op : word) : option (word * st) :=
@@ -172,10 +184,12 @@ Definition run (cfg : word) (ops : list word) : option (list word) :=
    sshrunk  : a BDP update LOWERED the stream window below the configured one (clause 10)
    cdead    : updateFlowControl emitted a connection WINDOW_UPDATE with an illegal increment
               (0 or > 2^31-1, clause 9): the framer refuses it, loopy exits and the
-              connection is closed, so nothing is claimed afterwards *)
+              connection is closed, so nothing is claimed afterwards
+   siw      : the SETTINGS_INITIAL_WINDOW_SIZE the peer knows (initial value, then every SETTINGS
+              observed): the window a new stream starts with at the peer *)
 Record led := mkled { adv : Z; rcvd : Z; cadv : Z; crcvd : Z; lim : Z; clim : Z;
                       deliv : Z; readb : Z; want : Z; ldead : bool; adjusted : bool; bumped : bool;
-                      sshrunk : bool; cdead : bool }.
+                      sshrunk : bool; cdead : bool; siw : Z }.
 
 Definition cfg_ok (cfg : word) : bool :=
   match cfg2 cfg with
@@ -185,8 +199,8 @@ Definition cfg_ok (cfg : word) : bool :=
 
 Definition linit (cfg : word) : led :=
   match cfg2 cfg with
-  | [l; cl] => mkled l 0 cl 0 l cl 0 0 0 false false false false false
-  | _ => mkled 0 0 0 0 0 0 0 0 0 true false false false false
+  | [l; cl] => mkled l 0 cl 0 l cl 0 0 0 false false false false false l
+  | _ => mkled 0 0 0 0 0 0 0 0 0 true false false false false 0
   end.
 
 (* well-formedness of an operation in the current ledger state: frame sizes are frame sizes,
@@ -198,7 +212,7 @@ Definition opk_ok (L : led) (k : opk) : bool :=
   | OReq n => (want L =? 0) && (0 <=? n) && (n <? 2^32)
   | ORead k => (0 <=? k) && (k <=? want L) && (k <=? deliv L - readb L)
   | ONew n => (1 <=? n) && (n <=? bdpLimit)
-  | OPing => true
+  | OPing | OBegin | ORelease => true
   end.
 
 Definition op_ok (L : led) (op : word) : bool :=
@@ -210,20 +224,20 @@ Definition lstepk (L : led) (k : opk) (o : word) : option led :=
     let cadv' := cadv L + cwu in let crcvd' := crcvd L + size in
     if ldead L || (size =? 0) then
       Some (mkled (adv L) (rcvd L) cadv' crcvd' (lim L) (clim L) (deliv L) (readb L) (want L)
-                  (ldead L) (adjusted L) (bumped L) (sshrunk L) (cdead L))
+                  (ldead L) (adjusted L) (bumped L) (sshrunk L) (cdead L) (siw L))
     else if err =? 0 then
       Some (mkled (adv L + swu) (rcvd L + size) cadv' crcvd' (lim L) (clim L)
-                  (deliv L + (size - pad)) (readb L) (want L) false (adjusted L) (bumped L) (sshrunk L) (cdead L))
+                  (deliv L + (size - pad)) (readb L) (want L) false (adjusted L) (bumped L) (sshrunk L) (cdead L) (siw L))
     else
       Some (mkled (adv L) (rcvd L) cadv' crcvd' (lim L) (clim L) (deliv L) (readb L) (want L)
-                  true (adjusted L) (bumped L) (sshrunk L) (cdead L))
+                  true (adjusted L) (bumped L) (sshrunk L) (cdead L) (siw L))
   | OReq n, wu :: _ =>
     Some (mkled (adv L + wu) (rcvd L) (cadv L) (crcvd L) (lim L) (clim L) (deliv L) (readb L) n
-                (ldead L) (0 <? wu) false (sshrunk L) (cdead L))
+                (ldead L) (0 <? wu) false (sshrunk L) (cdead L) (siw L))
   | ORead k, wu :: _ =>
     let w' := want L - k in
     Some (mkled (adv L + wu) (rcvd L) (cadv L) (crcvd L) (lim L) (clim L) (deliv L) (readb L + k) w'
-                (ldead L) (adjusted L && negb (w' =? 0)) (bumped L && negb (w' =? 0)) (sshrunk L) (cdead L))
+                (ldead L) (adjusted L && negb (w' =? 0)) (bumped L && negb (w' =? 0)) (sshrunk L) (cdead L) (siw L))
   | ONew n, cwu :: items :: sv :: _ =>
     (* the ledger follows what was put on the wire: SETTINGS_INITIAL_WINDOW_SIZE = sv (0 = none
        sent) moves every stream window by sv - lim; a connection WINDOW_UPDATE item (items > 0)
@@ -234,10 +248,16 @@ Definition lstepk (L : led) (k : opk) (o : word) : option led :=
                 (deliv L) (readb L) (want L)
                 (ldead L) (adjusted L) (bumped L || (grow && adjusted L))
                 (sshrunk L || (grow && (sv <? lim L)))
-                (cdead L || negb ((items =? 0) || ((1 <=? cwu) && (cwu <=? max_i32)))))
+                (cdead L || negb ((items =? 0) || ((1 <=? cwu) && (cwu <=? max_i32))))
+                (if sv =? 0 then siw L else sv))
   | OPing, cwu :: _ =>
     Some (mkled (adv L) (rcvd L) (cadv L + cwu) (crcvd L) (lim L) (clim L) (deliv L) (readb L) (want L)
-                (ldead L) (adjusted L) (bumped L) (sshrunk L) (cdead L))
+                (ldead L) (adjusted L) (bumped L) (sshrunk L) (cdead L) (siw L))
+  | OBegin, _ => Some L
+  | ORelease, _ =>
+    (* a new stream: the peer gives it the SETTINGS_INITIAL_WINDOW_SIZE it knows *)
+    Some (mkled (siw L) 0 (cadv L) (crcvd L) (siw L) (clim L) 0 0 0 false false false
+                (sshrunk L) (cdead L) (siw L))
   | _, _ => None
   end.
 
